@@ -215,9 +215,12 @@ func init() {
 	vh.AddPart("C07", "lib-conc", "sim", vh.Opts{Shards: 16, TimeoutS: 300, TimeoutSThorough: 3000},
 		func(e *vh.Env) []c07Conc {
 			var cs []c07Conc
-			for _, kind := range []string{"boundary", "inside", "straggler"} {
+			for _, kind := range []string{"boundary", "inside", "straggler", "old-trial"} {
 				for _, mr := range []int{1, 2} {
 					for _, st := range []int{1, 2} {
+						if kind == "old-trial" && mr < 2 {
+							continue // two trials of the first half-open period are needed
+						}
 						for _, acts := range []string{"SS", "SF", "FS", "FF"} {
 							cs = append(cs, c07Conc{Kind: kind, Actors: acts, MR: mr, ST: st, Bound: -1, Max: e.Pick(1500, 20000)})
 						}
@@ -253,6 +256,17 @@ func init() {
 				// trip it
 				_ = cb.Execute(func() error { return errFail })
 				time.Sleep(31 * time.Second)
+				if c.Kind == "old-trial" {
+					// a trial of a first half-open period stays in flight while a second trial fails (open again) and
+					// the timeout passes once more: its late success is not a trial of the second period
+					go func() {
+						defer close(stragglerDone)
+						_ = cb.Execute(func() error { <-release; return nil })
+					}()
+					time.Sleep(time.Nanosecond)
+					_ = cb.Execute(func() error { return errFail })
+					time.Sleep(31 * time.Second)
+				}
 				pre := 0
 				if c.Kind == "inside" {
 					// one successful trial already admitted sequentially
@@ -282,7 +296,7 @@ func init() {
 						journal = append(journal, c07Ev{Kind: "ret", Actor: i, Err: es})
 					})
 				}
-				if c.Kind == "straggler" {
+				if c.Kind == "straggler" || c.Kind == "old-trial" {
 					s.Go(func() { close(release); <-stragglerDone })
 				}
 				return func(s *vh.Sched, r vh.SchedResult) {
